@@ -4,7 +4,7 @@ from ..norm import n, P, C, V, ANY, match, find_all, binop
 from . import layout, common, cmpmodel, c05, c09
 
 ID = "C15"
-CONFIGS = {"quick": ["K0", "K9"], "thorough": ["K0", "K9", "K11", "K1"]}
+CONFIGS = {"quick": ["K0", "K9"], "thorough": ["K0", "K9", "K11", "K1", "K19", "K21"]}
 META = {
     "explanation": (
         "Static analysis (MIR paths, resolved callees per instantiation, constant evaluator).  In the strict "
@@ -212,9 +212,13 @@ def generator(ctx, r, F):
         e3 = n(ps[0].ret) if len(ps) == 1 else None
     ctx.ob(r, ("final_48", "element-of-T48"), e3 is not None and e3[0] == "index" and e3[1] == ("table", "pearson::SUBST_TABLE_48"), "final_48 is %s" % (sym.fmt(e3) if e3 else e3), cfg=F.key)
     # length code <= 169
-    I = F.const_array("length::ENCODED_INDICES_BY_LEADING_ZEROS", 8)
+    I = F.const_array("length::ENCODED_INDICES_BY_LEADING_ZEROS", F.usize_bytes)
     T = F.const_array("length::TOP_VALUE_BY_ENCODING", 4)
-    okI = I is not None and T is not None and len(I) == 33 and I[0] == len(T) == 170 and all(I[c] <= 169 for c in range(1, 32))
+    if "length::ENCODED_INDICES_BY_LEADING_ZEROS" in F.consts:
+        okI = I is not None and T is not None and len(I) == 33 and I[0] == len(T) == 170 and all(I[c] <= 169 for c in range(1, 32))
+    else:
+        # whole-table search (targets without the bracket table): the rank of len <= MAX == T[169] in a 170-entry table is <= 169
+        okI = T is not None and len(T) == 170 and F.const_int("length::MAX") == T[169] and all(T[i] < T[i + 1] for i in range(169))
     ctx.ob(r, ("length code", "<=169"), okI, "bracket table does not bound the code by 169 (I[0]=%s, max I[1..31]=%s)" % (I[0] if I else None, max(I[1:32]) if I else None), cfg=F.key)
     # finalize copies checksum unchanged: Ok value arg 2 == load(self.checksum)
     M, err = common.finalize_model(F)
